@@ -6,12 +6,13 @@
    Part B: the program points of the model pcs (continuation stacks read off the generated bodies) and the requests at the
    blocking pcs; the steps that involve only the control skeleton. *)
 From Coq Require Import List NArith ZArith Bool Lia.
-From Cqos Require Import Base Divider Sched Prio1 GoSem GoConc GenV1Prio GenConcV1Prio.
+From Cqos Require Import Base Divider Sched Prio1 GoSem GoConc GenV1Prio GenConcV1Prio
+                         GenTiePrio1Base GenTiePrio1Calc GenTiePrio1Term GenTiePrio1Inputs.
 Import ListNotations.
 Open Scope N_scope.
 
 Definition stmtT := stmt cstate payload chan_id fname.
-Definition frameT := frame cstate payload chan_id fname.
+Definition frameT := GoConc.frame cstate payload chan_id fname.
 Definition cfgT := config cstate payload chan_id fname.
 
 Definition wbody (s : stmtT) : list stmtT := match s with While _ b => b | _ => [] end.
@@ -169,9 +170,402 @@ Proof.
 Qed.
 End Points.
 
+
+(* ==== Part C: the simulation with the sequential state (GenTiePrio1Base.absd, inputs_rel, st_deq) *)
+Section Full.
+Variable dv : nat -> Divider.
+Variable g : divider_fn.
+Hypothesis Hok : div_ok g dv.
+Hypothesis dv_wf : forall k ps n d, NoDup (keys d) -> NoDup (keys (dv k ps n d)).
+Hypothesis dv_ext : forall k ps n a b, NoDup (keys a) -> NoDup (keys b) -> deq a b -> deq (dv k ps n a) (dv k ps n b).
+Variable buf : N -> bool.                       (* which priorities have a buffered input (a constant of the program) *)
+Definition cap_of : chan_id -> Z := fun c => match c with CInput p => if buf p then 1%Z else 0%Z | _ => 0%Z end.
+Notation prog := (table cap_of).
+Notation movesP := (moves prog).
+Notation reachesP := (reaches prog).
+
+Definition baseK (r : list stmtT) : list frameT := KSeq r :: KCall [] :: loopK (skipn 3 (wbody loopW)).
+Definition wctW := at_ 0 body_waitCalcTactic.
+Definition wctLoopK : list frameT := KLoop (wcond wctW) (wbody wctW) :: KSeq [] :: KCall [] :: baseK (skipn 2 body_base).
+Definition prW := at_ 2 (body_prioritize cap_of).
+Definition after_prio (ph : phase) : list stmtT := match ph with P1 => skipn 5 body_base | P2 => skipn 10 body_base end.
+Definition prioLoopK (ph : phase) : list frameT :=
+  KLoop (wcond prW) (wbody prW) :: KSeq (skipn 3 (body_prioritize cap_of)) :: KCall [] :: baseK (after_prio ph).
+Definition ifIO := at_ 2 (wbody prW).
+Definition ioLoopK (ph : phase) : list frameT :=
+  KLoop (wcond ioW) (wbody ioW) :: KSeq (skipn 2 body_io) :: KCall [] :: KSeq (skipn 2 (if_then ifIO)) :: KSeq [] :: prioLoopK ph.
+Definition iouLoopK (ph : phase) : list frameT :=
+  KLoop (wcond iouW) (wbody iouW) :: KSeq (skipn 3 body_iou) :: KCall [] :: KSeq (skipn 2 (if_else ifIO)) :: KSeq [] :: prioLoopK ph.
+Definition readK (ph : phase) (p : N) : list frameT := if buf p then ioLoopK ph else iouLoopK ph.
+Definition sendK (ph : phase) (p : N) : list frameT :=
+  KSeq (skipn 1 body_send) :: KCall [] ::
+  (if buf p then KSeq (skipn 3 (sel_alt 2 (at_ 0 (wbody ioW)))) :: KSeq [] :: ioLoopK ph
+   else KSeq (skipn 4 (sel_alt 2 (at_ 0 (wbody iouW)))) :: KSeq [] :: iouLoopK ph).
+
+Definition stackC (c : pc) : list frameT :=
+  match c with
+  | Top => loopK (wbody loopW)
+  | Calc => wctLoopK
+  | WaitFb => KSeq body_getOneFeedback :: KCall [] :: KSeq (skipn 4 (wbody wctW)) :: wctLoopK
+  | Prio ph _ _ => prioLoopK ph
+  | Read ph p _ _ _ => readK ph p
+  | Prio1.Send ph p _ _ _ => sendK ph p
+  | Recalc _ => baseK (after_prio P1)
+  | EndBase _ => loopK (skipn 3 (wbody loopW))
+  | Idle => KSeq (skipn 1 (if_then ifZero)) :: loopK (skipn 6 (wbody loopW))
+  | LimFb _ => KLoop (wcond glfW) (wbody glfW) :: KSeq [] :: KCall [] :: loopK []
+  | Drain _ => KLoop (wcond wzW) (wbody wzW) :: KSeq [] :: KCall [] :: KSeq [] :: KCall [] :: mainK
+  | Done _ => []
+  end.
+
+Definition liveC (c : pc) (gl : G) : Prop :=
+  match c with
+  | Calc | WaitFb => G_base_processed gl = 0
+  | Prio ph r proc => G_prioritize_rest1 gl = r /\ G_base_processed gl + G_prioritize_processed gl = proc /\ proc < u_modulus
+  | Read ph p r proc intr =>
+      G_prioritize_rest1 gl = r /\ G_prioritize_priority gl = p /\ proc < u_modulus /\
+      if buf p then G_io_priority gl = p /\ G_base_processed gl + G_prioritize_processed gl + G_io_processed gl = proc
+      else G_iou_priority gl = p /\ G_iou_interrupt gl = intr /\
+           G_base_processed gl + G_prioritize_processed gl + G_iou_processed gl = proc
+  | Prio1.Send ph p x r proc =>
+      G_prioritize_rest1 gl = r /\ G_prioritize_priority gl = p /\ proc < u_modulus /\
+      G_send_priority gl = p /\ G_send_item gl = x /\ G_send_prioritized gl = mk_Prioritized x p /\
+      if buf p then G_io_priority gl = p /\ G_base_processed gl + G_prioritize_processed gl + G_io_processed gl = proc
+      else G_iou_priority gl = p /\ G_iou_interrupt gl = false /\
+           G_base_processed gl + G_prioritize_processed gl + G_iou_processed gl = proc
+  | Recalc proc => G_base_processed gl + G_prioritize_ret0 gl = proc /\ proc < u_modulus
+  | EndBase proc => G_base_ret0 gl = proc /\ G_base_ret1 gl = None
+  | LimFb k => G_getLimitedFeedback_i1 gl + N.of_nat k = G_getLimitedFeedback_n2 gl /\ G_getLimitedFeedback_n2 gl < u_modulus
+  | _ => True
+  end.
+
+(* the simulation relation: the receiver value is the abstraction of a code state s1 that agrees with the model state up to
+   the representation of the maps actual / tactic (st_deq) *)
+Definition RC (s : st) (cf : cfgT) : Prop :=
+  exists fr inp strat unc us s1 gl,
+    cf = ((absd fr g (Some inp) strat unc us s1, gl, ncalls s), stackC (pcs s)) /\
+    st_deq s1 s /\ inputs_rel s inp /\ mitems strat = strategic s /\ liveC (pcs s) gl.
+
+Ltac step tac := eapply r_step; [cbn; try tac; reflexivity|].
+Ltac runto tac := first [apply r_refl | step tac; runto tac].
+Ltac runblock tac := first [eapply r_step; [cbn; try tac; reflexivity|]; runblock tac | apply r_refl].
+
+(* ---- Calc: the head of the loop of waitCalcTactic(); the exits without an error *)
+Lemma step_calc_frame s :
+  let s' := step_calc dv s in
+  prios s' = prios s /\ chan_of s' = chan_of s /\ drained s' = drained s /\ strategic s' = strategic s /\
+  (pcs s' = WaitFb \/ pcs s' = Prio P1 (prios s) 0 \/ exists e, pcs s' = Drain (Some e)).
+Proof.
+  assert (B : forall v, let s' := calc_base dv s v in
+    prios s' = prios s /\ chan_of s' = chan_of s /\ drained s' = drained s /\ strategic s' = strategic s /\
+    (pcs s' = WaitFb \/ pcs s' = Prio P1 (prios s) 0 \/ exists e, pcs s' = Drain (Some e))).
+  { intros v. unfold calc_base. cbv zeta. destruct (safe_divide _ _ _ _); [destruct (filled _ _)|]; cbn; repeat split; eauto. }
+  unfold step_calc.
+  destruct (Prio1.H s <? sum (actual s)); [cbn; repeat split; eauto|]. cbv zeta.
+  destruct (Prio1.H s - sum (actual s) =? 0); [cbn; repeat split; eauto|].
+  destruct (add_up _ _ _ _ _) as [[t pk]|]; [|apply B].
+  destruct (pk =? _); [cbn; repeat split; eauto|apply B].
+Qed.
+
+Lemma sim_calc s cf :
+  RC s cf -> pcs s = Calc ->
+  NoDup (keys (actual s)) -> NoDup (keys (tactic s)) ->
+  sum (actual s) < u_modulus -> Prio1.H s < u_modulus -> sum_list (map (get (strategic s)) (prios s)) < u_modulus ->
+  (forall e, pcs (step_calc dv s) <> Drain (Some e)) ->
+  exists cf', reachesP cf cf' /\ RC (step_calc dv s) cf'.
+Proof.
+  intros (fr & inp & strat & unc & us & s1 & gl & -> & Hd & Hin & Hst & L) Epc N1 N2 Hsa Hh Hb Hne.
+  destruct (tie_v1_calcTactic_sim dv g Hok dv_wf dv_ext fr (Some inp) strat unc us s1 s Hd N1 N2 Hst Hsa Hh Hb) as (s1' & unc' & T & Hd').
+  cbn zeta in T. destruct (step_calc_frame s) as (Ep & Ec & Edr & Es & Hpc).
+  assert (Hin' : inputs_rel (step_calc dv s) inp) by (unfold inputs_rel in *; rewrite Ec, Edr; exact Hin).
+  assert (Hnd : is_div_err (pcs (step_calc dv s)) = false).
+  { destruct (pcs (step_calc dv s)) eqn:E; try reflexivity. destruct e as [e|]; [destruct (Hne e); reflexivity|reflexivity]. }
+  rewrite Epc in *. cbn in L.
+  destruct Hpc as [E|[E|[e E]]]; [| |now destruct (Hne e)].
+  - eexists (_, stackC WaitFb). split.
+    + unfold stackC, wctLoopK. eapply r_step; [cbn; reflexivity|]. runto ltac:(rewrite ?T, ?E; cbn).
+    + eexists fr, inp, strat, unc', us, s1', _. rewrite E. split; [reflexivity|].
+      split; [apply Hd'; rewrite E; reflexivity|]. split; [exact Hin'|]. split; [now rewrite Es|exact L].
+  - eexists (_, stackC (Prio P1 (prios s) 0)). split.
+    + unfold stackC, wctLoopK. eapply r_step; [cbn; reflexivity|]. runto ltac:(rewrite ?T, ?E; cbn; rewrite ?L).
+    + eexists fr, inp, strat, unc', us, s1', _. rewrite E. split; [reflexivity|].
+      split; [apply Hd'; rewrite E; reflexivity|]. split; [exact Hin'|]. split; [now rewrite Es|].
+      cbn. rewrite ?L. destruct (st_deq_proj _ _ (Hd' ltac:(rewrite E; reflexivity))) as (_ & EP & _).
+      repeat split; try reflexivity. rewrite EP, Ep. reflexivity.
+Qed.
+
+(* ---- WaitFb: the select of getOneFeedback() *)
+Lemma st_deq_reset s1 s c :
+  st_deq s1 s -> st_deq (with_tac s1 (reset (tactic s1)) c) (with_tac s (reset (tactic s)) c).
+Proof.
+  intros (a & t & -> & Ha & Ht & Na & Nt). exists a, (reset t). cbn.
+  split; [reflexivity|]. split; [exact Ha|]. split; [apply deq_reset|]. split; [exact Na|now apply nodup_keys_reset].
+Qed.
+
+Definition fbAlts : list (chan_id * option payload) := stopAlts ++ [(CFeedback, None)].
+
+(* a feedback answer (alternative 2): decreaseActual, getOneFeedback returns true, the loop of waitCalcTactic goes on: Calc *)
+Lemma sim_waitfb_fb s cf p q :
+  RC s cf -> pcs s = WaitFb -> fbq s = p :: q ->
+  1 <= get (actual s) p -> get (actual s) p < u_modulus ->
+  exists cb cf', reachesP cf cb /\ step1 prog cb = Block (RqSelect fbAlts false) /\
+    reachesP (GoConc.resume cb (AnsSel 2 (Some (PN p)))) cf' /\ RC (pop_fb s p q Calc) cf'.
+Proof.
+  intros (fr & inp & strat & unc & us & s1 & gl & -> & Hd & Hin & Hst & L) Epc Efb H1 H2.
+  destruct (st_deq_proj _ _ Hd) as (_ & _ & _ & _ & _ & Ha & _).
+  rewrite <- (Ha p) in H1, H2.
+  pose proof (tie_v1_decreaseActual g fr (Some inp) strat unc us s1 p q Calc (ncalls s) H1 H2) as T.
+  rewrite Epc in *. cbn in L.
+  eexists _, (_, stackC Calc). split; [unfold stackC; runblock idtac|]. split; [reflexivity|]. split.
+  - cbn [GoConc.resume]. unfold stackC, wctLoopK. runto ltac:(rewrite ?T; cbn).
+  - eexists fr, inp, strat, unc, us, _, _. split; [reflexivity|]. split; [apply pop_fb_deq; exact Hd|].
+    split; [exact Hin|]. split; [exact Hst|]. exact L.
+Qed.
+
+(* a stop answer (alternative 0: breaker, 1: context): getOneFeedback returns false, waitCalcTactic resets the tactic
+   and returns nil, base() goes on to the first prioritize(): the step of the model with fixed = true *)
+Lemma sim_waitfb_stop s cf i :
+  RC s cf -> pcs s = WaitFb -> i = 0%nat \/ i = 1%nat ->
+  exists cb cf', reachesP cf cb /\ step1 prog cb = Block (RqSelect fbAlts false) /\
+    reachesP (GoConc.resume cb (AnsSel i None)) cf' /\ RC (with_tac s (reset (tactic s)) (Prio P1 (prios s) 0)) cf'.
+Proof.
+  intros (fr & inp & strat & unc & us & s1 & gl & -> & Hd & Hin & Hst & L) Epc Hi.
+  destruct (st_deq_proj _ _ Hd) as (_ & EP & _ & _ & _ & _ & _ & _ & Nt).
+  assert (T : forall w, gen_resetTactic w (absd fr g (Some inp) strat unc us s1) =
+                        (w, absd fr g (Some inp) strat unc us (with_tac s1 (reset (tactic s1)) (Prio P1 (prios s) 0)), tt)).
+  { intros w. rewrite (tie_resetTactic w (absd fr g (Some inp) strat unc us s1) (tactic s1) eq_refl Nt). reflexivity. }
+  rewrite Epc in *. cbn in L.
+  eexists _, (_, stackC (Prio P1 (prios s) 0)). split; [unfold stackC; runblock idtac|]. split; [reflexivity|].
+  split.
+  - cbn [GoConc.resume]. unfold stackC, wctLoopK.
+    destruct Hi as [-> | ->]; runto ltac:(rewrite ?T; cbn; rewrite ?L).
+  - eexists fr, inp, strat, unc, us, _, _. split; [reflexivity|]. split; [apply st_deq_reset; exact Hd|].
+    split; [exact Hin|]. split; [exact Hst|]. cbn. rewrite ?L, EP. repeat split; reflexivity.
+Qed.
+
+(* ---- Send: the select of send() *)
+Definition outAlts (p x : N) : list (chan_id * option payload) :=
+  stopAlts ++ [(COutput, Some (PPrioritized (mk_Prioritized x p)))].
+
+(* the output answer (alternative 2): decreaseTactic, increaseActual, send returns 1, the caller counts it: Read *)
+Lemma sim_send_out s cf ph p x r proc :
+  RC s cf -> pcs s = Prio1.Send ph p x r proc ->
+  1 <= get (tactic s) p -> get (tactic s) p < u_modulus -> get (actual s) p + 1 < u_modulus -> proc + 1 < u_modulus ->
+  exists cb cf', reachesP cf cb /\ step1 prog cb = Block (RqSelect (outAlts p x) false) /\
+    reachesP (GoConc.resume cb (AnsSel 2 None)) cf' /\ RC (push_out s p x (Read ph p r (proc + 1) false)) cf'.
+Proof.
+  intros (fr & inp & strat & unc & us & s1 & gl & -> & Hd & Hin & Hst & L) Epc H1 H2 H3 H4.
+  destruct (st_deq_proj _ _ Hd) as (_ & _ & _ & _ & _ & Ha & Ht & _).
+  rewrite <- (Ht p) in H1, H2. rewrite <- (Ha p) in H3.
+  pose proof (tie_v1_send_updates g fr (Some inp) strat unc us s1 p x (Read ph p r (proc + 1) false) (ncalls s) H1 H2 H3) as T.
+  destruct (gen_decreaseTactic (ncalls s) (absd fr g (Some inp) strat unc us s1) p) as [[w1 d1] u1] eqn:T1.
+  rewrite Epc in *. cbn in L. destruct L as (L1 & L2 & L3 & L4 & L5 & L6 & L7).
+  unfold stackC, sendK, readK in *. destruct (buf p) eqn:B.
+  - destruct L7 as (L7 & L8).
+    eexists _, (_, ioLoopK ph). split; [runblock idtac|]. split; [cbn; rewrite L6; reflexivity|]. split.
+    + cbn [GoConc.resume]. unfold ioLoopK. runto ltac:(rewrite ?L4, ?T1; cbn; rewrite ?T; cbn).
+    + unfold RC. cbn [pcs push_out stackC]. unfold readK. rewrite B.
+      eexists fr, inp, strat, unc, us, _, _. split; [reflexivity|]. split; [apply push_out_deq; exact Hd|].
+      split; [exact Hin|]. split; [exact Hst|]. cbn. rewrite B. repeat split; try assumption.
+      rewrite u_add_small by lia. lia.
+  - destruct L7 as (L7 & L8 & L9).
+    eexists _, (_, iouLoopK ph). split; [runblock idtac|]. split; [cbn; rewrite L6; reflexivity|]. split.
+    + cbn [GoConc.resume]. unfold iouLoopK. runto ltac:(rewrite ?L4, ?T1; cbn; rewrite ?T; cbn).
+    + unfold RC. cbn [pcs push_out stackC]. unfold readK. rewrite B.
+      eexists fr, inp, strat, unc, us, _, _. split; [reflexivity|]. split; [apply push_out_deq; exact Hd|].
+      split; [exact Hin|]. split; [exact Hst|]. cbn. rewrite B. repeat split; try assumption.
+      rewrite u_add_small by lia. lia.
+Qed.
+
+Lemma drop_item_deq s1 s p x c : st_deq s1 s -> st_deq (drop_item s1 p x c) (drop_item s p x c).
+Proof. intros (a & t & -> & H). exists a, t. split; [reflexivity|exact H]. Qed.
+
+(* a stop answer (alternative 0 / 1): send returns 0, the item is dropped (drop_item), the caller's loop goes on: Read *)
+Lemma sim_send_stop s cf ph p x r proc i :
+  RC s cf -> pcs s = Prio1.Send ph p x r proc -> i = 0%nat \/ i = 1%nat ->
+  exists cb cf', reachesP cf cb /\ step1 prog cb = Block (RqSelect (outAlts p x) false) /\
+    reachesP (GoConc.resume cb (AnsSel i None)) cf' /\ RC (drop_item s p x (Read ph p r proc false)) cf'.
+Proof.
+  intros (fr & inp & strat & unc & us & s1 & gl & -> & Hd & Hin & Hst & L) Epc Hi.
+  rewrite Epc in *. cbn in L. destruct L as (L1 & L2 & L3 & L4 & L5 & L6 & L7).
+  unfold stackC, sendK, readK in *. destruct (buf p) eqn:B.
+  - destruct L7 as (L7 & L8).
+    eexists _, (_, ioLoopK ph). split; [runblock idtac|]. split; [cbn; rewrite L6; reflexivity|]. split.
+    + cbn [GoConc.resume]. unfold ioLoopK. destruct Hi as [-> | ->]; runto idtac.
+    + unfold RC. cbn [pcs drop_item stackC]. unfold readK. rewrite B.
+      eexists fr, inp, strat, unc, us, (drop_item s1 p x (Read ph p r proc false)), _. split; [reflexivity|].
+      split; [apply drop_item_deq; exact Hd|].
+      split; [exact Hin|]. split; [exact Hst|]. cbn. rewrite B. repeat split; try assumption.
+      rewrite u_add_0_r by lia. assumption.
+  - destruct L7 as (L7 & L8 & L9).
+    eexists _, (_, iouLoopK ph). split; [runblock idtac|]. split; [cbn; rewrite L6; reflexivity|]. split.
+    + cbn [GoConc.resume]. unfold iouLoopK. destruct Hi as [-> | ->]; runto idtac.
+    + unfold RC. cbn [pcs drop_item stackC]. unfold readK. rewrite B.
+      eexists fr, inp, strat, unc, us, (drop_item s1 p x (Read ph p r proc false)), _. split; [reflexivity|].
+      split; [apply drop_item_deq; exact Hd|].
+      split; [exact Hin|]. split; [exact Hst|]. cbn. rewrite B. repeat split; try assumption.
+      rewrite u_add_0_r by lia. assumption.
+Qed.
+
+(* ---- Read: the loop of io() (buffered input) / iou() (unbuffered input) *)
+Definition readAlts (p : N) : list (chan_id * option payload) :=
+  stopAlts ++ (CInput p, None) :: (if buf p then [] else [(CTick, None)]).
+
+Lemma pop_in_deq s1 s ch p x q c : st_deq s1 s -> st_deq (pop_in s1 ch p x q c) (pop_in s ch p x q c).
+Proof. intros (a & t & -> & H). exists a, t. split; [reflexivity|exact H]. Qed.
+Lemma with_pc_deq s1 s c : st_deq s1 s -> st_deq (with_pc s1 c) (with_pc s c).
+Proof. intros (a & t & -> & H). exists a, t. split; [reflexivity|exact H]. Qed.
+
+(* the quota of the priority is used up: the loop ends, io / iou return, prioritize() counts: Prio *)
+Lemma sim_read_exit s cf ph p r proc intr :
+  RC s cf -> pcs s = Read ph p r proc intr -> get (tactic s) p = 0 ->
+  exists cf', reachesP cf cf' /\ RC (with_pc s (Prio ph r proc)) cf'.
+Proof.
+  intros (fr & inp & strat & unc & us & s1 & gl & -> & Hd & Hin & Hst & L) Epc H0.
+  destruct (st_deq_proj _ _ Hd) as (_ & _ & _ & _ & _ & _ & Ht & _). rewrite <- (Ht p) in H0.
+  rewrite Epc in *. cbn in L. destruct L as (L1 & L2 & L3 & L7).
+  unfold stackC, readK in *. destruct (buf p) eqn:B.
+  - destruct L7 as (L7 & L8). eexists (_, prioLoopK ph). split.
+    + unfold ioLoopK. runto ltac:(rewrite ?L7, ?aget_get, ?H0; cbn).
+    + eexists fr, inp, strat, unc, us, (with_pc s1 (Prio ph r proc)), _. split; [reflexivity|].
+      split; [apply with_pc_deq; exact Hd|]. split; [exact Hin|]. split; [exact Hst|]. cbn.
+      repeat split; try assumption. rewrite u_add_small by lia. lia.
+  - destruct L7 as (L7 & L8 & L9). eexists (_, prioLoopK ph). split.
+    + unfold iouLoopK. runto ltac:(rewrite ?L7, ?aget_get, ?H0; cbn).
+    + eexists fr, inp, strat, unc, us, (with_pc s1 (Prio ph r proc)), _. split; [reflexivity|].
+      split; [apply with_pc_deq; exact Hd|]. split; [exact Hin|]. split; [exact Hst|]. cbn.
+      repeat split; try assumption. rewrite u_add_small by lia. lia.
+Qed.
+
+(* a stop answer (alternative 0 / 1), or the default of io(): io / iou return, prioritize() counts: Prio *)
+Lemma sim_read_stop s cf ph p r proc intr a :
+  RC s cf -> pcs s = Read ph p r proc intr -> get (tactic s) p <> 0 ->
+  a = AnsSel 0 None \/ a = AnsSel 1 None \/ (a = AnsDefault /\ buf p = true) ->
+  exists cb cf', reachesP cf cb /\ step1 prog cb = Block (RqSelect (readAlts p) (buf p)) /\
+    reachesP (GoConc.resume cb a) cf' /\ RC (with_pc s (Prio ph r proc)) cf'.
+Proof.
+  intros (fr & inp & strat & unc & us & s1 & gl & -> & Hd & Hin & Hst & L) Epc H0 Ha.
+  destruct (st_deq_proj _ _ Hd) as (_ & _ & _ & _ & _ & _ & Ht & _). rewrite <- (Ht p) in H0.
+  apply N.eqb_neq in H0.
+  rewrite Epc in *. cbn in L. destruct L as (L1 & L2 & L3 & L7).
+  unfold stackC, readK, readAlts in *. destruct (buf p) eqn:B.
+  - destruct L7 as (L7 & L8). eexists _, (_, prioLoopK ph).
+    split; [unfold ioLoopK; runblock ltac:(rewrite ?L7, ?aget_get, ?H0; cbn)|].
+    split; [cbn; rewrite L7; reflexivity|]. split.
+    + cbn [GoConc.resume]. destruct Ha as [-> | [-> | [-> _]]]; runto idtac.
+    + eexists fr, inp, strat, unc, us, (with_pc s1 (Prio ph r proc)), _. split; [reflexivity|].
+      split; [apply with_pc_deq; exact Hd|]. split; [exact Hin|]. split; [exact Hst|]. cbn.
+      repeat split; try assumption. rewrite u_add_small by lia. lia.
+  - destruct L7 as (L7 & L8 & L9). eexists _, (_, prioLoopK ph).
+    split; [unfold iouLoopK; runblock ltac:(rewrite ?L7, ?aget_get, ?H0; cbn)|].
+    split; [cbn; rewrite L7; reflexivity|]. split.
+    + cbn [GoConc.resume]. destruct Ha as [-> | [-> | [_ Hx]]]; [| |discriminate Hx]; runto idtac.
+    + eexists fr, inp, strat, unc, us, (with_pc s1 (Prio ph r proc)), _. split; [reflexivity|].
+      split; [apply with_pc_deq; exact Hd|]. split; [exact Hin|]. split; [exact Hst|]. cbn.
+      repeat split; try assumption. rewrite u_add_small by lia. lia.
+Qed.
+
+(* an item (alternative 2 with a value): the call of send() up to its select: Send *)
+Lemma sim_read_item s cf ph p r proc intr ch x q :
+  RC s cf -> pcs s = Read ph p r proc intr -> get (tactic s) p <> 0 ->
+  exists cb cf', reachesP cf cb /\ step1 prog cb = Block (RqSelect (readAlts p) (buf p)) /\
+    reachesP (GoConc.resume cb (AnsSel 2 (Some (PN x)))) cf' /\ RC (pop_in s ch p x q (Prio1.Send ph p x r proc)) cf'.
+Proof.
+  intros (fr & inp & strat & unc & us & s1 & gl & -> & Hd & Hin & Hst & L) Epc H0.
+  destruct (st_deq_proj _ _ Hd) as (_ & _ & _ & _ & _ & _ & Ht & _). rewrite <- (Ht p) in H0.
+  apply N.eqb_neq in H0.
+  rewrite Epc in *. cbn in L. destruct L as (L1 & L2 & L3 & L7).
+  unfold RC. cbn [pcs pop_in stackC]. unfold stackC, readK, sendK, readAlts in *. destruct (buf p) eqn:B.
+  - destruct L7 as (L7 & L8).
+    eexists _, (_, KSeq (skipn 1 body_send) :: KCall [] :: KSeq (skipn 3 (sel_alt 2 (at_ 0 (wbody ioW)))) :: KSeq [] :: ioLoopK ph).
+    split; [unfold ioLoopK; runblock ltac:(rewrite ?L7, ?aget_get, ?H0; cbn)|].
+    split; [cbn; rewrite L7; reflexivity|]. split.
+    + cbn [GoConc.resume]. runto idtac.
+    + eexists fr, inp, strat, unc, us, (pop_in s1 ch p x q (Prio1.Send ph p x r proc)), _. split; [reflexivity|].
+      split; [apply pop_in_deq; exact Hd|]. split; [exact Hin|]. split; [exact Hst|]. cbn. rewrite B, ?L7.
+      repeat split; try assumption; try reflexivity.
+  - destruct L7 as (L7 & L8 & L9).
+    eexists _, (_, KSeq (skipn 1 body_send) :: KCall [] :: KSeq (skipn 4 (sel_alt 2 (at_ 0 (wbody iouW)))) :: KSeq [] :: iouLoopK ph).
+    split; [unfold iouLoopK; runblock ltac:(rewrite ?L7, ?aget_get, ?H0; cbn)|].
+    split; [cbn; rewrite L7; reflexivity|]. split.
+    + cbn [GoConc.resume]. runto idtac.
+    + eexists fr, inp, strat, unc, us, (pop_in s1 ch p x q (Prio1.Send ph p x r proc)), _. split; [reflexivity|].
+      split; [apply pop_in_deq; exact Hd|]. split; [exact Hin|]. split; [exact Hst|]. cbn. rewrite B, ?L7.
+      repeat split; try assumption; try reflexivity.
+Qed.
+
+(* ---- Prio: the head of the loop of prioritize() *)
+(* no priority left: prioritize() returns; after the first pass base() is at recalcTactic (Recalc), after the second it
+   returns to loop() (EndBase) *)
+Lemma sim_prio_nil s cf ph proc :
+  RC s cf -> pcs s = Prio ph [] proc ->
+  exists cf', reachesP cf cf' /\ RC (with_pc s (match ph with P1 => Recalc proc | P2 => EndBase proc end)) cf'.
+Proof.
+  intros (fr & inp & strat & unc & us & s1 & gl & -> & Hd & Hin & Hst & L) Epc.
+  rewrite Epc in *. cbn in L. destruct L as (L1 & L2 & L3).
+  destruct ph.
+  - eexists (_, stackC (Recalc proc)). split.
+    + unfold stackC, prioLoopK. runto ltac:(rewrite ?L1; cbn).
+    + eexists fr, inp, strat, unc, us, (with_pc s1 (Recalc proc)), _. split; [reflexivity|].
+      split; [apply with_pc_deq; exact Hd|]. split; [exact Hin|]. split; [exact Hst|]. cbn. split; assumption.
+  - eexists (_, stackC (EndBase proc)). split.
+    + unfold stackC, prioLoopK. runto ltac:(rewrite ?L1; cbn).
+    + eexists fr, inp, strat, unc, us, (with_pc s1 (EndBase proc)), _. split; [reflexivity|].
+      split; [apply with_pc_deq; exact Hd|]. split; [exact Hin|]. split; [exact Hst|]. cbn.
+      split; [|reflexivity]. rewrite u_add_small by lia. assumption.
+Qed.
+
+(* ---- Recalc: base() after the first prioritize(); the exits without an error *)
+Lemma step_recalc_frame s proc :
+  let s' := step_recalc dv s proc in
+  prios s' = prios s /\ chan_of s' = chan_of s /\ drained s' = drained s /\ strategic s' = strategic s /\
+  (pcs s' = Prio P2 (prios s) proc \/ pcs s' = EndBase proc \/ exists e, pcs s' = Drain (Some e)).
+Proof.
+  unfold step_recalc. cbv zeta.
+  destruct (safe_divide _ _ _ _); [|cbn; repeat split; eauto].
+  destruct (safe_divide _ _ _ _); [destruct (filled _ _)|]; cbn; repeat split; eauto.
+Qed.
+
+Lemma sim_recalc s cf proc :
+  RC s cf -> pcs s = Recalc proc ->
+  NoDup (keys (actual s)) -> NoDup (keys (tactic s)) -> sum (tactic s) < u_modulus ->
+  (forall e, pcs (step_recalc dv s proc) <> Drain (Some e)) ->
+  exists cf', reachesP cf cf' /\ RC (step_recalc dv s proc) cf'.
+Proof.
+  intros (fr & inp & strat & unc & us & s1 & gl & -> & Hd & Hin & Hst & L) Epc N1 N2 Hs Hne.
+  destruct (tie_v1_recalcTactic_sim dv g Hok dv_wf dv_ext fr (Some inp) strat unc us s1 s proc Hd N1 N2 Hs) as (s1' & us' & T & Hd').
+  cbn zeta in T. destruct (step_recalc_frame s proc) as (Ep & Ec & Edr & Es & Hpc).
+  assert (Hin' : inputs_rel (step_recalc dv s proc) inp) by (unfold inputs_rel in *; rewrite Ec, Edr; exact Hin).
+  rewrite Epc in *. cbn in L. destruct L as (L1 & L2).
+  assert (U : u_add (G_base_processed gl) (G_prioritize_ret0 gl) = proc) by (rewrite u_add_small by lia; exact L1).
+  destruct Hpc as [E|[E|[e E]]]; [| |now destruct (Hne e)].
+  - eexists (_, stackC (Prio P2 (prios s) proc)). split.
+    + unfold stackC, baseK. runto ltac:(rewrite ?U, ?T, ?E; cbn).
+    + eexists fr, inp, strat, unc, us', s1', _. rewrite E. split; [reflexivity|].
+      split; [apply Hd'; rewrite E; reflexivity|]. split; [exact Hin'|]. split; [now rewrite Es|].
+      cbn. destruct (st_deq_proj _ _ (Hd' ltac:(rewrite E; reflexivity))) as (_ & EP & _).
+      repeat split; try assumption. rewrite EP, Ep. reflexivity. lia.
+  - eexists (_, stackC (EndBase proc)). split.
+    + unfold stackC, baseK. runto ltac:(rewrite ?U, ?T, ?E; cbn).
+    + eexists fr, inp, strat, unc, us', s1', _. rewrite E. split; [reflexivity|].
+      split; [apply Hd'; rewrite E; reflexivity|]. split; [exact Hin'|]. split; [now rewrite Es|].
+      cbn. split; reflexivity.
+Qed.
+End Full.
+
 Print Assumptions blocked_top.
 Print Assumptions blocked_send.
 Print Assumptions blocking_statements.
 Print Assumptions sim_idle.
 Print Assumptions sim_limfb_zero.
 Print Assumptions sim_limfb_end.
+Print Assumptions sim_calc.
+Print Assumptions sim_waitfb_fb.
+Print Assumptions sim_waitfb_stop.
+Print Assumptions sim_send_out.
+Print Assumptions sim_send_stop.
+Print Assumptions sim_read_exit.
+Print Assumptions sim_read_stop.
+Print Assumptions sim_read_item.
+Print Assumptions sim_prio_nil.
+Print Assumptions sim_recalc.
